@@ -184,4 +184,9 @@ def find_function(repo, file, qual):
             raise KeyError("%s::%s not found" % (file, qual))
         body = node.body
     seg = ast.get_source_segment(src, node)
-    return node, seg, hashlib.sha1(seg.encode()).hexdigest()[:12]
+    # "the function changed" is decided on the AST (positions, comments, blank lines and the docstring do not count)
+    import copy
+    n2 = copy.deepcopy(node)
+    if n2.body and isinstance(n2.body[0], ast.Expr) and isinstance(n2.body[0].value, ast.Constant) and isinstance(n2.body[0].value.value, str):
+        n2.body = n2.body[1:] or [ast.Pass()]
+    return node, seg, hashlib.sha1(ast.dump(n2, include_attributes=False).encode()).hexdigest()[:12]
